@@ -16,7 +16,7 @@ variable {Ω : Type}
 structure CodecLawsOn (c : OpCodec Ω) (nrm : Ω → Ω) (Good : Ω → Prop) : Prop where
   decEnc : ∀ op p j, Good op → c.enc op p = .ok j → c.dec j = .ok (nrm op, (p : Int))
   encNrm : ∀ op p j, Good op → c.enc op p = .ok j → c.enc (nrm op) p = .ok j
-  ordNrm : ∀ op inc, Good op → c.orderOff (nrm op) inc = c.orderOff op inc
+  ordNrm : ∀ op p j inc, Good op → c.enc op p = .ok j → c.orderOff (nrm op) inc = c.orderOff op inc
   ordOk : ∀ op p j, Good op → c.enc op p = .ok j → ∀ inc, ∃ r, c.orderOff op inc = .ok r
 
 /-- the laws for every operation -/
@@ -169,7 +169,7 @@ theorem toSerial_normal [Inhabited Ω] (c : OpCodec Ω) (nrm : Ω → Ω) (Good 
         have hm' : m < order.length := by simp at hm; omega
         obtain ⟨dk, p, a, _, cc, _⟩ := hper m hm'
         obtain ⟨r, hr⟩ := laws.ordOk dk.op p _ (hgood _ dk a) cc inc
-        have : c.orderOff (opAt m) inc = .ok r := by rw [hopAt m hm' dk a, laws.ordNrm _ _ (hgood _ dk a), hr]
+        have : c.orderOff (opAt m) inc = .ok r := by rw [hopAt m hm' dk a, laws.ordNrm _ p _ _ (hgood _ dk a) cc, hr]
         simp only [ordAt, this]
       · -- metadata
         refine ⟨ns.map (·.2), rfl, by simp, ?_⟩
